@@ -296,7 +296,11 @@ func FirstPos(p *Prog, f *ssa.Function) string {
 // which the error is non-nil are blocked, and vice versa. Conditions that do
 // not test this call's error are left open.
 func ErrNilEdge(call *ssa.Call, wantNil bool) EdgeFilter {
-	isErrVal := errValueMatcher(call)
+	return NilEdgeOf(errValueMatcher(call), wantNil)
+}
+
+// NilEdgeOf is ErrNilEdge for an arbitrary value (for instance an error parameter).
+func NilEdgeOf(isErrVal func(v ssa.Value) bool, wantNil bool) EdgeFilter {
 	return func(from *ssa.BasicBlock, succ int) bool {
 		ifi := IfOf(from)
 		if ifi == nil {
